@@ -15,9 +15,14 @@
 (*   items = the texts of a list value (extra query values only).                               *)
 (* conv = [k, a, b, c, signed, items]: string(minlength a, maxlength b (0 none), length c       *)
 (*   (0 none)), int(fixed_digits a (0 none), signed), float(signed), any(items), uuid, path.    *)
-(* seg  = [k \in "lit"|"var", t, pre, name, conv, post]   rule = [ep, segs, branch, defaults,   *)
-(*   dom] (dom = static subdomain or host text, <<>> for none).                                 *)
-EXTENDS Naturals, Sequences, FiniteSets, Text
+(* seg  = [k \in "lit"|"var", t, pre, name, conv, post, more]  (more = further variables of    *)
+(*   the same segment, each [name, conv, post]: pre <v1> post1 <v2> post2 ...)                   *)
+(* rule = [ep, segs, branch, defaults, dom, dsegs] (dom = static subdomain or host text, <<>>   *)
+(*   for none; dsegs = <<>> or <<seg>>: a domain part with variables, e.g. <u>.example.com).    *)
+(* conv also carries hasmin, min, hasmax, max (ints; thousandths for float).                    *)
+(* map = [rules, host_matching, redirect_defaults, sort] (sort: 0 none, 1 sort_parameters,      *)
+(*   2 sort_parameters with sort_key = the value).                                              *)
+EXTENDS Integers, Sequences, FiniteSets, Text
 
 CONSTANTS PathDot,   \* "fixed": the path converter admits LF inside a value; "orig": its '.' stops at LF
           AnyQuote,  \* "fixed": any-converter items are percent-encoded like every other text; "orig": emitted raw
@@ -81,6 +86,23 @@ Lower(t) == [i \in 1..Len(t) |-> LowerC(t[i])]
 UuidShape(t) == Len(t) = 36 /\ \A i \in 1..36 : IF i \in {9, 14, 19, 24} THEN t[i] = MINUS ELSE IsHex(t[i])
 UuidCanon(t) == UuidShape(t) /\ Lower(t) = t
 
+\* ---------------------------------------------------------------- min / max options
+RECURSIVE NatOf(_)
+NatOf(ds) == IF ds = <<>> THEN 0 ELSE NatOf(Take(ds, Len(ds) - 1)) * 10 + (ds[Len(ds)] - 48)
+InRange(conv, n) == (~conv.hasmin \/ n >= conv.min) /\ (~conv.hasmax \/ n <= conv.max)
+\* [known, ok] for an int text (any size) / a float text (known only up to 6 + 3 digits)
+IntRange(conv, t) ==
+  IF ~conv.hasmin /\ ~conv.hasmax THEN [known |-> TRUE, ok |-> TRUE]
+  ELSE LET m == StripZeros(Mag(t)) IN
+       IF Len(m) > 9 THEN [known |-> TRUE, ok |-> IF IsNeg(t) THEN ~conv.hasmin ELSE ~conv.hasmax]
+       ELSE [known |-> TRUE, ok |-> InRange(conv, IF IsNeg(t) THEN 0 - NatOf(m) ELSE NatOf(m))]
+FloatRange(conv, t) ==
+  IF ~conv.hasmin /\ ~conv.hasmax THEN [known |-> TRUE, ok |-> TRUE]
+  ELSE LET m == Mag(t) d == FindFrom(m, <<DOT>>, 1) ip == Take(m, d - 1) fp == Drop(m, d) IN
+       IF Len(ip) > 6 \/ Len(fp) > 3 THEN [known |-> FALSE, ok |-> FALSE]
+       ELSE LET n == NatOf(ip) * 1000 + NatOf(fp \o Zeros(3 - Len(fp))) IN
+            [known |-> TRUE, ok |-> InRange(conv, IF IsNeg(t) THEN 0 - n ELSE n)]
+
 \* ---------------------------------------------------------------- values and converters
 Val(ty, v) == [ty |-> ty, v |-> v, items |-> <<>>]
 StrLenOK(conv, n) == IF conv.c > 0 THEN n = conv.c ELSE n >= conv.a /\ (conv.b = 0 \/ n <= conv.b)
@@ -91,8 +113,8 @@ Accepts(conv, val) ==
   CASE conv.k = "string" -> val.ty = "str" /\ AllScalar(val.v) /\ NoSlash(val.v) /\ Len(val.v) >= 1 /\ StrLenOK(conv, Len(val.v))
     [] conv.k = "path"   -> val.ty = "str" /\ AllScalar(val.v) /\ Len(val.v) >= 1 /\ val.v[1] # SLASH /\ val.v[Len(val.v)] # SLASH
     [] conv.k = "any"    -> val.ty = "str" /\ val.v \in ItemSet(conv) /\ AllScalar(val.v) /\ NoSlash(val.v) /\ Len(val.v) >= 1
-    [] conv.k = "int"    -> val.ty = "int" /\ IntCanon(val.v, conv.signed) /\ (conv.a = 0 \/ Len(val.v) <= conv.a)
-    [] conv.k = "float"  -> val.ty = "float" /\ FloatCanon(val.v, conv.signed)
+    [] conv.k = "int"    -> val.ty = "int" /\ IntCanon(val.v, conv.signed) /\ (conv.a = 0 \/ Len(val.v) <= conv.a) /\ IntRange(conv, val.v).ok
+    [] conv.k = "float"  -> val.ty = "float" /\ FloatCanon(val.v, conv.signed) /\ FloatRange(conv, val.v).ok
     [] conv.k = "uuid"   -> val.ty = "uuid" /\ UuidCanon(val.v)
     [] OTHER -> FALSE
 
@@ -109,10 +131,10 @@ NoVal == Val("none", <<>>)
 Parse(conv, t) ==
   CASE conv.k = "string" -> [ok |-> Len(t) >= 1 /\ NoSlash(t) /\ StrLenOK(conv, Len(t)), val |-> Val("str", t)]
     [] conv.k = "any"    -> [ok |-> t \in ItemSet(conv), val |-> Val("str", t)]
-    [] conv.k = "int"    -> IF IntShape(t, conv.signed) /\ (conv.a = 0 \/ Len(t) = conv.a)
+    [] conv.k = "int"    -> IF IntShape(t, conv.signed) /\ (conv.a = 0 \/ Len(t) = conv.a) /\ IntRange(conv, t).ok
                             THEN [ok |-> TRUE, val |-> Val("int", IntCanonOf(t))] ELSE [ok |-> FALSE, val |-> NoVal]
-    [] conv.k = "float"  -> IF FloatShape(t, conv.signed)
-                            THEN [ok |-> TRUE, val |-> IF FloatCanon(t, conv.signed) THEN Val("float", t) ELSE Val("float?", t)]
+    [] conv.k = "float"  -> IF FloatShape(t, conv.signed) /\ (FloatRange(conv, t).ok \/ ~FloatRange(conv, t).known)
+                            THEN [ok |-> TRUE, val |-> IF FloatCanon(t, conv.signed) /\ FloatRange(conv, t).known THEN Val("float", t) ELSE Val("float?", t)]
                             ELSE [ok |-> FALSE, val |-> NoVal]
     [] conv.k = "uuid"   -> [ok |-> UuidShape(t), val |-> Val("uuid", Lower(t))]
     [] conv.k = "path"   -> [ok |-> Len(t) >= 1 /\ t[1] # SLASH /\ (PathDot = "fixed" \/ \A i \in 2..Len(t) : t[i] # LF),
@@ -134,20 +156,50 @@ Update(S, ds) == {x \in S : x[1] \notin Names(ds)} \cup ValSet(ds)
 Named(n, val) == [name |-> n, ty |-> val.ty, v |-> val.v, items |-> val.items]
 
 \* ---------------------------------------------------------------- rules
-VarSegs(r) == SelectSeq(r.segs, LAMBDA s : s.k = "var")
-VarNames(r) == {r.segs[i].name : i \in {j \in 1..Len(r.segs) : r.segs[j].k = "var"}}
+SegVars(s) == <<[name |-> s.name, conv |-> s.conv, post |-> s.post]>> \o s.more
+RECURSIVE VarsOfSegs(_)
+VarsOfSegs(segs) == IF segs = <<>> THEN <<>> ELSE (IF Head(segs).k = "var" THEN SegVars(Head(segs)) ELSE <<>>) \o VarsOfSegs(Tail(segs))
+AllVars(r) == VarsOfSegs(r.dsegs \o r.segs)
+VarNames(r) == {AllVars(r)[i].name : i \in 1..Len(AllVars(r))}
 Args(r) == VarNames(r) \cup Names(r.defaults)
-ConvOf(r, n) == LET i == CHOOSE i \in 1..Len(r.segs) : r.segs[i].k = "var" /\ r.segs[i].name = n IN r.segs[i].conv
+ConvOf(r, n) == LET vs == AllVars(r) i == CHOOSE i \in 1..Len(vs) : vs[i].name = n IN vs[i].conv
 
 \* Rule.suitable_for (method = None)
 Suitable(r, vals) ==
   /\ \A a \in Args(r) : a \in Names(r.defaults) \/ a \in Names(vals)
   /\ \A i \in 1..Len(r.defaults) : r.defaults[i].name \in Names(vals) => Tup(Named(r.defaults[i].name, ValOf(vals, r.defaults[i].name))) = Tup(r.defaults[i])
 
+\* the value rule r puts into the URL for variable n
+UrlVal(r, vals, n) == IF n \in Names(r.defaults) THEN ValOf(r.defaults, n) ELSE ValOf(vals, n)
+CharsOf(t) == {t[i] : i \in 1..Len(t)}
+\* literal characters of a segment: prefix and every separator / suffix
+LitChars(s) == CharsOf(s.pre) \cup UNION {CharsOf(SegVars(s)[i].post) : i \in 1..Len(SegVars(s))}
+\* several variables in one segment: the inverse law is claimed only where the separators cannot split the
+\* values ambiguously -- adjacent variables are separated by a non-empty literal and no value (as it is
+\* spelled in the path) contains a literal character of the segment
+MultiClean(s, ts) == /\ \A i \in 1..(Len(SegVars(s)) - 1) : SegVars(s)[i].post # <<>>
+                     /\ \A i \in 1..Len(ts) : CharsOf(ts[i]) \cap LitChars(s) = {}
+MultiOK(r, s, vals) == s.more = <<>> \/ MultiClean(s, [i \in 1..Len(SegVars(s)) |-> Unquote(ToUrl(SegVars(s)[i].conv, UrlVal(r, vals, SegVars(s)[i].name)))])
+\* values in a domain part: what survives a client (lower-case host, default port dropped): lower-case
+\* letters, digits and hyphens in non-empty labels separated by dots; ints other than the default ports
+IsLDH(c) == IsDigit(c) \/ (c >= 97 /\ c <= 122) \/ c = MINUS
+DomTextOK(t) == Len(t) >= 1 /\ t[1] # DOT /\ t[Len(t)] # DOT /\ (\A i \in 1..Len(t) : IsLDH(t[i]) \/ t[i] = DOT)
+                /\ \A i \in 1..(Len(t) - 1) : ~(t[i] = DOT /\ t[i + 1] = DOT)
+DomValueOK(conv, val) == IF conv.k = "int" THEN conv.a = 0 /\ val.v \notin {<<56, 48>>, <<52, 52, 51>>} ELSE conv.k \in {"string", "any"} /\ DomTextOK(val.v)
 \* the values of the call are inside the claimed domain for rule r
 InDomain(r, vals) ==
-  \A n \in VarNames(r) : IF n \in Names(r.defaults) THEN Accepts(ConvOf(r, n), ValOf(r.defaults, n))
-                         ELSE n \in Names(vals) /\ Accepts(ConvOf(r, n), ValOf(vals, n))
+  /\ \A n \in VarNames(r) : IF n \in Names(r.defaults) THEN Accepts(ConvOf(r, n), ValOf(r.defaults, n))
+                            ELSE n \in Names(vals) /\ Accepts(ConvOf(r, n), ValOf(vals, n))
+  /\ \A i \in 1..Len(r.segs) : r.segs[i].k = "var" => MultiOK(r, r.segs[i], vals)
+  /\ \A i \in 1..Len(r.dsegs) : MultiOK(r, r.dsegs[i], vals) /\ \A j \in 1..Len(SegVars(r.dsegs[i])) :
+        DomValueOK(SegVars(r.dsegs[i])[j].conv, UrlVal(r, vals, SegVars(r.dsegs[i])[j].name))
+
+RECURSIVE VarsText(_, _, _)
+VarsText(r, vs, vals) == IF vs = <<>> THEN <<>>
+                         ELSE ToUrl(Head(vs).conv, UrlVal(r, vals, Head(vs).name)) \o SegQuote(Head(vs).post) \o VarsText(r, Tail(vs), vals)
+SegText(r, s, vals) == IF s.k = "lit" THEN SegQuote(s.t) ELSE SegQuote(s.pre) \o VarsText(r, SegVars(s), vals)
+\* the domain part the rule builds: its static subdomain / host or the filled-in pattern
+DomText(r, vals) == IF r.dsegs = <<>> THEN r.dom ELSE SegText(r, r.dsegs[1], vals)
 
 \* Map.update sorts the rules of an endpoint by build_compare_key = (alias, -|arguments|, -|defaults|), stably
 DefKey(r) == IF KeyDefaults = "count" THEN Len(r.defaults) ELSE IF Len(r.defaults) > 0 THEN 1 ELSE 0
@@ -158,13 +210,8 @@ Candidates(rules, ep, vals) == {i \in 1..Len(rules) : rules[i].ep = ep /\ Suitab
 \* index of the rule MapAdapter.build uses (0: BuildError); host matching prefers a rule on the bound host
 ChooseRule(m, b, ep, vals) ==
   LET C == Candidates(m.rules, ep, vals)
-      P == IF m.host_matching /\ \E i \in C : m.rules[i].dom = b.server THEN {i \in C : m.rules[i].dom = b.server} ELSE C
+      P == IF m.host_matching /\ \E i \in C : DomText(m.rules[i], vals) = b.server THEN {i \in C : DomText(m.rules[i], vals) = b.server} ELSE C
   IN IF C = {} THEN 0 ELSE CHOOSE i \in P : \A j \in P : j = i \/ Before(m.rules, i, j)
-
-SegText(r, s, vals) ==
-  IF s.k = "lit" THEN SegQuote(s.t)
-  ELSE SegQuote(s.pre) \o ToUrl(s.conv, IF s.name \in Names(r.defaults) THEN ValOf(r.defaults, s.name) ELSE ValOf(vals, s.name))
-       \o SegQuote(s.post)
 RECURSIVE SegsText(_, _, _)
 SegsText(r, segs, vals) == IF segs = <<>> THEN <<>> ELSE <<SLASH>> \o SegText(r, Head(segs), vals) \o SegsText(r, Tail(segs), vals)
 BuildPath(r, vals) == SegsText(r, r.segs, vals) \o (IF r.branch THEN <<SLASH>> ELSE <<>>)
@@ -173,8 +220,20 @@ BuildPath(r, vals) == SegsText(r, r.segs, vals) \o (IF r.branch THEN <<SLASH>> E
 RECURSIVE Pairs(_)
 Pairs(vs) == IF vs = <<>> THEN <<>>
              ELSE LET x == Head(vs) IN
-                  (IF x.ty = "list" THEN [i \in 1..Len(x.items) |-> <<x.name, x.items[i]>>] ELSE <<<<x.name, x.v>>>>) \o Pairs(Tail(vs))
-Extras(r, vals) == Pairs(SelectSeq(vals, LAMBDA x : x.name \notin Args(r)))
+                  (IF x.ty = "list" THEN [i \in 1..Len(x.items) |-> <<x.name, x.items[i]>>]
+                   ELSE IF x.ty = "none" THEN <<>> ELSE <<<<x.name, x.v>>>>) \o Pairs(Tail(vs))
+\* values given as None are dropped by build()
+Live(vals) == SelectSeq(vals, LAMBDA x : x.ty # "none")
+\* code point order of str, (key, value) tuple order, stable insertion sort (sorted())
+RECURSIVE TextLess(_, _)
+TextLess(a, b) == IF b = <<>> THEN FALSE ELSE IF a = <<>> THEN TRUE ELSE IF a[1] # b[1] THEN a[1] < b[1] ELSE TextLess(Tail(a), Tail(b))
+PairLess(mode, x, y) == IF mode = 2 THEN TextLess(x[2], y[2]) ELSE TextLess(x[1], y[1]) \/ (x[1] = y[1] /\ TextLess(x[2], y[2]))
+RECURSIVE InsertSorted(_, _, _)
+InsertSorted(mode, x, q) == IF q = <<>> THEN <<x>> ELSE IF PairLess(mode, x, Head(q)) THEN <<x>> \o q ELSE <<Head(q)>> \o InsertSorted(mode, x, Tail(q))
+RECURSIVE SortFrom(_, _, _)
+SortFrom(mode, ps, acc) == IF ps = <<>> THEN acc ELSE SortFrom(mode, Tail(ps), InsertSorted(mode, Head(ps), acc))
+SortQ(m, ps) == IF m.sort = 0 THEN ps ELSE SortFrom(m.sort, ps, <<>>)
+Extras(m, r, vals) == SortQ(m, Pairs(SelectSeq(vals, LAMBDA x : x.name \notin Args(r))))
 RECURSIVE UrlEncode(_)
 UrlEncode(ps) == IF ps = <<>> THEN <<>>
                  ELSE QuotePlus(ps[1][1]) \o <<EQC>> \o QuotePlus(ps[1][2]) \o (IF Len(ps) > 1 THEN <<AMPC>> \o UrlEncode(Tail(ps)) ELSE <<>>)
@@ -191,9 +250,10 @@ BuildUrl(m, b, ep, vals, ext) ==
   LET i == ChooseRule(m, b, ep, vals) IN
   IF i = 0 THEN [ok |-> FALSE, url |-> <<>>, rule |-> 0]
   ELSE LET r == m.rules[i]
-           path == BuildPath(r, vals) \o QueryOf(Extras(r, vals))
-           host == HostFor(m, b, r.dom)
-           rel == ~ext /\ (IF m.host_matching THEN host = b.server ELSE r.dom = b.sub)
+           path == BuildPath(r, vals) \o QueryOf(Extras(m, r, vals))
+           dom == DomText(r, vals)
+           host == HostFor(m, b, dom)
+           rel == ~ext /\ (IF m.host_matching THEN host = b.server ELSE dom = b.sub)
        IN [ok |-> TRUE, rule |-> i,
            url |-> IF rel THEN Root(b.script) \o path
                    ELSE b.scheme \o <<COLON, SLASH, SLASH>> \o host \o Root(b.script) \o path]
@@ -205,11 +265,17 @@ SchemeLen(u) == IF IsPrefixOf(HTTP \o <<COLON, SLASH, SLASH>>, u) THEN 7
                 ELSE IF IsPrefixOf(HTTP \o <<115, COLON, SLASH, SLASH>>, u) THEN 8 ELSE 0
 CutAt(s, c) == LET p == FindFrom(s, <<c>>, 1) IN IF p = 0 THEN s ELSE Take(s, p - 1)
 AfterFirst(s, c) == LET p == FindFrom(s, <<c>>, 1) IN IF p = 0 THEN <<>> ELSE Drop(s, p)
+\* a client lower-cases the host and drops the default port of the scheme
+ClientHost(h, scheme) ==
+  LET l == Lower(h)
+      dp == IF scheme = HTTP THEN <<COLON, 56, 48>> ELSE <<COLON, 52, 52, 51>>
+  IN IF Len(l) > Len(dp) /\ Drop(l, Len(l) - Len(dp)) = dp THEN Take(l, Len(l) - Len(dp)) ELSE l
 Deliver(m, b, u) ==
   LET sl == SchemeLen(u)
       rest0 == Drop(u, sl)
-      host == IF sl = 0 THEN AdapterHost(m, b) ELSE CutAt(rest0, SLASH)
-      rest1 == IF sl = 0 THEN u ELSE Drop(rest0, Len(host))
+      host0 == IF sl = 0 THEN AdapterHost(m, b) ELSE CutAt(rest0, SLASH)
+      host == ClientHost(host0, IF sl = 0 THEN b.scheme ELSE Take(u, sl - 3))
+      rest1 == IF sl = 0 THEN u ELSE Drop(rest0, Len(host0))
       nofrag == CutAt(rest1, HASH)
       rawpath == CutAt(nofrag, QM)
       root == Root(b.script)
@@ -253,23 +319,49 @@ ShapeOK(r, parts) ==
   /\ IF k = 0 THEN Len(parts) = n ELSE Len(parts) >= n
   /\ r.branch => parts[Len(parts)] = <<>>
 
+\* what the regular expression of a converter admits (before to_python)
+RegexOK(conv, t) == IF conv.k = "int" THEN IntShape(t, conv.signed) ELSE Parse(conv, t).ok
+\* several variables in one segment: Python's backtracking gives every group the longest text for which
+\* the rest of the segment still matches.  text = <v1> post1 <v2> post2 ... ; result [ok, ts]
+RECURSIVE Split(_, _)
+Split(text, vs) ==
+  IF vs = <<>> THEN [ok |-> text = <<>>, ts |-> <<>>]
+  ELSE LET v == Head(vs)
+           Ls == {L \in 1..Len(text) : /\ RegexOK(v.conv, Take(text, L))
+                                       /\ IsPrefixOf(v.post, Drop(text, L))
+                                       /\ Split(Drop(text, L + Len(v.post)), Tail(vs)).ok}
+       IN IF Ls = {} THEN [ok |-> FALSE, ts |-> <<>>]
+          ELSE LET L == CHOOSE x \in Ls : \A y \in Ls : y <= x IN
+               [ok |-> TRUE, ts |-> <<Take(text, L)>> \o Split(Drop(text, L + Len(v.post)), Tail(vs)).ts]
+\* the raw texts of the variables of segment s for the part p
+SegTexts(s, p) == IF s.more = <<>> THEN LET vt == VarText(s, p) IN [ok |-> vt.ok, ts |-> <<vt.t>>]
+                  ELSE IF IsPrefixOf(s.pre, p) THEN Split(Drop(p, Len(s.pre)), SegVars(s)) ELSE [ok |-> FALSE, ts |-> <<>>]
+VarSegOK(s, p, canon, isdom) ==
+  LET st == SegTexts(s, p) vs == SegVars(s) IN
+  /\ st.ok
+  /\ \A j \in 1..Len(vs) : IF canon THEN CanonText(vs[j].conv, st.ts[j]) /\ (isdom => DomValueOK(vs[j].conv, Parse(vs[j].conv, st.ts[j]).val))
+                            ELSE Parse(vs[j].conv, st.ts[j]).ok
+  /\ (canon /\ s.more # <<>>) => MultiClean(s, st.ts)
 SegOK(r, parts, i, canon) ==
   LET s == r.segs[i] p == PartFor(r, parts, i) IN
   IF s.k = "lit" THEN p = s.t
-  ELSE LET vt == VarText(s, p) IN
-       /\ vt.ok
-       /\ IF canon THEN CanonText(s.conv, vt.t) ELSE Parse(s.conv, vt.t).ok
-       /\ (s.conv.k = "path" /\ r.branch /\ i = Len(r.segs)) => vt.t[Len(vt.t)] # SLASH
+  ELSE /\ VarSegOK(s, p, canon, FALSE)
+       /\ (s.conv.k = "path" /\ r.branch /\ i = Len(r.segs)) => LET t == SegTexts(s, p).ts[1] IN t[Len(t)] # SLASH
+\* the domain part (subdomain or host) the router sees against the rule's static or dynamic domain
+DomAdmits(r, dom, canon) == IF r.dsegs = <<>> THEN r.dom = dom ELSE VarSegOK(r.dsegs[1], dom, canon, TRUE)
 
 PartsOf(path) == SplitOn(Tail(path), SLASH, <<>>)
 RuleAdmits(r, path, canon) ==
   /\ Len(path) >= 1 /\ path[1] = SLASH
   /\ LET parts == PartsOf(path) IN ShapeOK(r, parts) /\ \A i \in 1..Len(r.segs) : SegOK(r, parts, i, canon)
 
-RuleVals(r, path) ==
+SegValSet(s, p) == LET st == SegTexts(s, p) vs == SegVars(s) IN
+  {Tup(Named(vs[j].name, Parse(vs[j].conv, st.ts[j]).val)) : j \in 1..Len(vs)}
+RuleVals(r, dom, path) ==
   LET parts == PartsOf(path)
       vi == {i \in 1..Len(r.segs) : r.segs[i].k = "var"}
-  IN Update({Tup(Named(r.segs[i].name, Parse(r.segs[i].conv, VarText(r.segs[i], PartFor(r, parts, i)).t).val)) : i \in vi}, r.defaults)
+  IN Update(UNION {SegValSet(r.segs[i], PartFor(r, parts, i)) : i \in vi}
+            \cup (IF r.dsegs = <<>> THEN {} ELSE SegValSet(r.dsegs[1], dom)), r.defaults)
 
 \* Map.redirect_defaults: a rule of the same endpoint and the same arguments that carries defaults, is
 \* preferred for building and is suitable for the matched values turns the match into a redirect
@@ -279,7 +371,7 @@ SuitableSet(r, S) ==
 Redirected(m, i, S) ==
   m.redirect_defaults /\ \E j \in 1..Len(m.rules) :
      /\ j # i /\ m.rules[j].ep = m.rules[i].ep /\ Len(m.rules[j].defaults) > 0 /\ Before(m.rules, j, i)
-     /\ Args(m.rules[j]) = Args(m.rules[i]) /\ m.rules[j].segs # m.rules[i].segs /\ SuitableSet(m.rules[j], S)
+     /\ Args(m.rules[j]) = Args(m.rules[i]) /\ <<m.rules[j].segs, m.rules[j].dom, m.rules[j].dsegs>> # <<m.rules[i].segs, m.rules[i].dom, m.rules[i].dsegs>> /\ SuitableSet(m.rules[j], S)
 
 \* MapAdapter.match collapses leading slashes ("//a" is "/a")
 RECURSIVE OneLead(_)
@@ -287,11 +379,11 @@ OneLead(p) == IF Len(p) >= 2 /\ p[1] = SLASH /\ p[2] = SLASH THEN OneLead(Tail(p
 \* set of matches (at most one for non-overlapping rules): [rule, ep, vals]
 MatchM(m, dom, path0) ==
   LET path == OneLead(path0) IN
-  {x \in {[rule |-> i, ep |-> m.rules[i].ep, vals |-> RuleVals(m.rules[i], path)] :
-             i \in {j \in 1..Len(m.rules) : m.rules[j].dom = dom /\ RuleAdmits(m.rules[j], path, FALSE)}} :
+  {x \in {[rule |-> i, ep |-> m.rules[i].ep, vals |-> RuleVals(m.rules[i], dom, path)] :
+             i \in {j \in 1..Len(m.rules) : DomAdmits(m.rules[j], dom, FALSE) /\ RuleAdmits(m.rules[j], path, FALSE)}} :
      ~Redirected(m, x.rule, x.vals)}
 \* is path the canonical spelling of what it matches under the (unique) rule that admits it?
-CanonPath(m, dom, path) == \E j \in 1..Len(m.rules) : m.rules[j].dom = dom /\ RuleAdmits(m.rules[j], path, TRUE)
+CanonPath(m, dom, path) == \E j \in 1..Len(m.rules) : DomAdmits(m.rules[j], dom, TRUE) /\ RuleAdmits(m.rules[j], path, TRUE)
 
 \* ---------------------------------------------------------------- the contract relations
 \* matched values allowed for build(ep, vals): the given values for the arguments of some suitable rule of the
@@ -299,7 +391,7 @@ CanonPath(m, dom, path) == \E j \in 1..Len(m.rules) : m.rules[j].dom = dom /\ Ru
 ExpectedVals(m, ep, vals) ==
   {Update(ValSet(Restrict(vals, Args(m.rules[i]))), m.rules[i].defaults) : i \in Candidates(m.rules, ep, vals)}
 ExpectedExtras(m, ep, vals, matched) ==
-  {Extras(m.rules[i], vals) : i \in {j \in Candidates(m.rules, ep, vals) :
+  {Extras(m, m.rules[i], vals) : i \in {j \in Candidates(m.rules, ep, vals) :
                                        Update(ValSet(Restrict(vals, Args(m.rules[j]))), m.rules[j].defaults) = matched}}
 StripQuery(u) == CutAt(u, QM)
 =============================================================================
